@@ -21,6 +21,7 @@ m = dict(version=1,
          engines=[dict(name="b2x+hypothesis", path="x/b2x.c lib/x.py lib/harness.py", serves_properties=sorted(CHECKS),
                        kind_free_text="generic call executor for libbee2 (exact-size heap buffers, ASan/MSan, asserts on) driven by Hypothesis strategies from Python; oracles are Python reference models, inverses and differentials"),
                   dict(name="b2x+enumeration", path="props/c20.py", serves_properties=["C20"], kind_free_text="complete enumeration of the automaton graph and rule monitors"),
+                  dict(name="mtx+tsan", path="mt/mtx.c props/c18.py", serves_properties=["C18"], kind_free_text="native pthread harness built with clang -fsanitize=thread"),
                   dict(name="libFuzzer", path="fuzz/fz.c fuzz/build_fuzz.py props/c08.py", serves_properties=["C08"], kind_free_text="clang libFuzzer targets with ASan and in-target oracles")],
          checks=[CHECKS[k] for k in sorted(CHECKS)],
          notes="See DESIGN.md. known_findings.json lists repaired (fixed) and recorded (known) defects.",
